@@ -73,6 +73,15 @@ func c08Seeds(thorough bool) []c08Seed {
 			add("signed-rsa-sha1", d.Bytes)
 		}
 		add("watermarked(pdfcpu-written)", fx.Files["wm.pdf"])
+		// documents in other producers' style
+		add("foreign:acroform", docgen.ForeignForm("classic"))
+		add("foreign:name-tree", c39TreeDoc(ntShape{Kids: []ntShape{{Leaf: 1}, {Kids: []ntShape{{Leaf: 1}, {Leaf: 1}, {Leaf: 1}}}}}, []string{"b.txt", "d.txt", "f.txt", "h.txt"}))
+		add("foreign:outline-named-destinations", c36ForeignOutline([]pdfcpu.Bookmark{{Title: "One", PageFrom: 1, Kids: []pdfcpu.Bookmark{{Title: "Two", PageFrom: 2}}}, {Title: "Three", PageFrom: 3}}, "named-name-tree-array"))
+		for _, fd := range docgen.Family(true) {
+			if fd.Name == "numbering=dense,extra=none/indirect-lengths" || fd.Name == "numbering=dense,extra=shared-indirect-attrs/classic" {
+				add("family:"+fd.Name, fd.Bytes)
+			}
+		}
 		if d, err := sigdoc.Build(sigdoc.Options{SubFilter: "adbe.pkcs7.detached", Exact: true}); err == nil {
 			s := d.Sigs[0]
 			if raw, ok := hexValue(d.Bytes[s.ContentsStart+1 : s.ContentsEnd-1]); ok {
